@@ -8,7 +8,7 @@ use std::{
 use crate::{
     CompileOptions, TypedExpr, TypedFnDef, TypedPattern, TypedProgram, TypedStmt,
     ast::{
-        Accessor, BuiltInFnCall, ConstExpr, ConstExprEnum, EnumDef, Expr, ExprEnum, Op, Pattern,
+        Accessor, BuiltInFnCall, ConstExpr, ConstExprEnum, EnumDef, ExprEnum, Op, Pattern,
         PatternEnum, StmtEnum, StructDef, Type, UnaryOp, VariantExprEnum,
     },
     circuit::{Circuit, CircuitBuilder, CircuitBuilderOptions, GateIndex, PanicReason, USIZE_BITS},
@@ -805,16 +805,7 @@ impl TypedExpr {
             }
             ExprEnum::UnaryOp(UnaryOp::Neg, x) => {
                 let x = x.compile(prg, env, circuit);
-                // the minimum value cannot be negated (its sign bit is the only bit set):
-                if let Some((&sign, rest)) = x.split_first() {
-                    let mut is_min = sign;
-                    for &w in rest {
-                        let not_w = circuit.push_not(w);
-                        is_min = circuit.push_and(is_min, not_w);
-                    }
-                    circuit.push_panic_if(is_min, PanicReason::Overflow, meta);
-                }
-                circuit.push_negation_circuit(&x)
+                compile_checked_negation(&x, meta, circuit)
             }
             ExprEnum::UnaryOp(UnaryOp::Not, x) => {
                 let x = x.compile(prg, env, circuit);
@@ -919,23 +910,24 @@ impl TypedExpr {
                             continue;
                         }
                         if n < bits {
-                            let mut expr = y.clone();
+                            // `n * y` as `y + y + ...`, with `y` evaluated only once:
+                            let summand = y.compile(prg, env, circuit);
+                            let mut sum = summand.clone();
                             for _ in 0..n - 1 {
-                                expr = Box::new(Expr {
-                                    inner: ExprEnum::Op(Op::Add, expr, y.clone()),
-                                    meta,
-                                    ty: ty.clone(),
-                                });
+                                let (s, carry, carry_prev) =
+                                    circuit.push_addition_circuit(&sum, &summand);
+                                let overflow = if is_signed(ty) {
+                                    circuit.push_xor(carry, carry_prev)
+                                } else {
+                                    carry
+                                };
+                                circuit.push_panic_if(overflow, PanicReason::Overflow, meta);
+                                sum = s;
                             }
                             if is_neg {
-                                return Expr {
-                                    inner: ExprEnum::UnaryOp(UnaryOp::Neg, expr),
-                                    meta,
-                                    ty: ty.clone(),
-                                }
-                                .compile(prg, env, circuit);
+                                return compile_checked_negation(&sum, meta, circuit);
                             } else {
-                                return expr.compile(prg, env, circuit);
+                                return sum;
                             }
                         }
                     }
@@ -1042,8 +1034,8 @@ impl TypedExpr {
                             // a magnitude of exactly 2^(bits - 1) is only representable if the
                             // result is negative:
                             let is_result_pos = circuit.push_not(is_result_neg);
-                            let not_min = circuit
-                                .push_or(not_all_bits_except_msb_are_zero, is_result_pos);
+                            let not_min =
+                                circuit.push_or(not_all_bits_except_msb_are_zero, is_result_pos);
                             let too_large_for_signed_representation =
                                 circuit.push_and(result_is_signed, not_min);
                             overflow =
@@ -1722,6 +1714,23 @@ fn compile_bitonic_merge(
         joined.push(process_binding(env, circuit, join_eq, binding));
     }
     joined
+}
+
+fn compile_checked_negation(
+    x: &[GateIndex],
+    meta: MetaInfo,
+    circuit: &mut CircuitBuilder,
+) -> Vec<GateIndex> {
+    // the minimum value cannot be negated (its sign bit is the only bit set):
+    if let Some((&sign, rest)) = x.split_first() {
+        let mut is_min = sign;
+        for &w in rest {
+            let not_w = circuit.push_not(w);
+            is_min = circuit.push_and(is_min, not_w);
+        }
+        circuit.push_panic_if(is_min, PanicReason::Overflow, meta);
+    }
+    circuit.push_negation_circuit(x)
 }
 
 fn extend_to_bits(v: &mut Vec<usize>, ty: &Type, bits: usize) {
